@@ -38,6 +38,7 @@
 (*   ics     Seq(STRING)         variables with a  v(0) = ...  line                           *)
 (*   maxTime Nat                                                                              *)
 (*   foundT  BOOLEAN             some line defines t or t_minus_1                             *)
+(*   reduce  BOOLEAN             constructor option run_equation_reduction                    *)
 (* and whatever else the bounded instance wants to pass to the driver (coefficients).         *)
 EXTENDS Integers, Sequences, FiniteSets, TLC
 
@@ -76,8 +77,23 @@ SolverNames == MathNames \cup BuiltinNames
 (* EquationParser.ParseString as seen through IterativeMachineGenerator.ParseString *)
 TimeEquation == [name |-> "t", reads |-> << "k" >>]
 
+(* the endogenous list as the parser builds it from the text *)
+Endo0(b) == IF b.foundT THEN b.endo ELSE Append(b.endo, TimeEquation)
+
+(* Constructor option run_equation_reduction (b.reduce): EquationParser.EquationReduction() moves every   *)
+(* DECORATIVE variable - one that no equation and no lag line reads (a leaf such as SAV = YD - C, an       *)
+(* alias INC = YD nobody uses, the injected t = k when no equation reads t) - out of the endogenous list  *)
+(* into Decoration; the generator then solves  Endogenous + Decoration : the same equations, each ONCE,   *)
+(* the decorative ones last.  (An alias substitution cannot change which names an equation reads here:    *)
+(* the aliases of the bounded instance are never read.)                                                   *)
+IsRead(b, e0, v) == \/ \E i \in DOMAIN e0 : v \in Range(e0[i].reads)
+                    \/ \E j \in DOMAIN b.lagged : b.lagged[j].of = v
+ReducedEndo(b) ==
+    LET e0 == Endo0(b)
+    IN SelectSeq(e0, LAMBDA q : IsRead(b, e0, q.name)) \o SelectSeq(e0, LAMBDA q : ~IsRead(b, e0, q.name))
+
 ParseOp(b) ==
-    [ endo    |-> IF b.foundT THEN b.endo ELSE Append(b.endo, TimeEquation),
+    [ endo    |-> IF b.reduce THEN ReducedEndo(b) ELSE Endo0(b),
       lagged  |-> b.lagged,
       exos    |-> b.exos,
       ics     |-> b.ics,
@@ -205,7 +221,8 @@ VARIABLES phase,    \* "init" | "rejected" | "parsed" | "equations" | "file" | "
 
 vars == << phase, ngen, blk, parser, gen, file, mod >>
 
-NoBlock  == [endo |-> << >>, lagged |-> << >>, exos |-> << >>, ics |-> << >>, maxTime |-> 0, foundT |-> FALSE]
+NoBlock  == [endo |-> << >>, lagged |-> << >>, exos |-> << >>, ics |-> << >>, maxTime |-> 0, foundT |-> FALSE,
+             reduce |-> FALSE]
 NoParser == [endo |-> << >>, lagged |-> << >>, exos |-> << >>, ics |-> << >>, maxTime |-> 0]
 NoGen    == [exos |-> << >>, all |-> << >>, nonLagged |-> << >>, eqReads |-> << >>]
 NoFile   == [globals |-> {}, declReads |-> << >>, decl |-> << >>, pack |-> << >>, orig |-> << >>, iterUnpack |-> << >>, iterBinds |-> << >>,
@@ -291,6 +308,18 @@ C20_ResolvesSolverNames == HasFile => SolverNames \subseteq file.globals
 (* captures a name of the generated class                                                         *)
 C20_LoopStateOwn == HasFile => LoopStateOwn(file)
 C20_NoNameCapture == HasFile => NoOwnNameCaptured(file)
+
+(* every variable of the block is solved exactly once: no name twice in the generator's endogenous *)
+(* list, in the declarations, in the unpack section or in VariableList (reduction on or off)       *)
+NoDuplicates(q) == \A i, j \in DOMAIN q : q[i] = q[j] => i = j
+C20_EachVariableOnce ==
+    /\ NoDuplicates(NamesOf(parser.endo))
+    /\ HasFile => /\ NoDuplicates(NamesOf(file.decl)) /\ NoDuplicates(NamesOf(file.unpack))
+                   /\ NoDuplicates(file.varList)
+(* reduction only reorders: the same equations with or without the option *)
+C20_ReductionKeepsEquations ==
+    phase # "init" /\ phase # "rejected" =>
+        { <<q.name, Range(q.reads)>> : q \in Range(parser.endo) } = { <<q.name, Range(q.reads)>> : q \in Range(Endo0(blk)) }
 
 (* the table lists 't' first and every non-lagged variable of the block exactly once *)
 NonLaggedOfBlock(p) == Range(NamesOf(p.endo)) \cup Range(NamesOf(p.exos))
